@@ -38,6 +38,21 @@ pub fn run(out: &mut Out, thorough: bool, seed: u64, _extra: &[String]) {
                 }
             }
         }
+        // budgets at EVERY level of the chain (down to the last, single-prime level, where CRT composition is the identity): a fresh
+        // ciphertext switched down, and encryptions of zero made directly at that level (public key and secret key)
+        if let Some(base) = prog.pool.iter().find(|x| x.ct.size() == 2) {
+            for pid in s.levels() {
+                let k = s.level_qs(&pid).len();
+                let mut cands: Vec<(&str, Ciphertext)> = vec![];
+                if let Ok(c) = std::panic::catch_unwind(std::panic::AssertUnwindSafe(|| s.evaluator.mod_switch_to_new(&base.ct, &pid))) { cands.push(("switched", c)); }
+                if let Ok(c) = std::panic::catch_unwind(std::panic::AssertUnwindSafe(|| s.encryptor.encrypt_zero_new_at(&pid))) { cands.push(("zero-pk", c)); }
+                if let Ok(c) = std::panic::catch_unwind(std::panic::AssertUnwindSafe(|| { let c = s.encryptor.encrypt_zero_symmetric_new_at(&pid); if c.contains_seed() { c.expand_seed(&s.ctx) } else { c } })) { cands.push(("zero-sk", c)); }
+                for (nm, c) in cands {
+                    let v = coef_view(&s, &c);
+                    out.case(&format!("budget {}", s.ct_case(&v)), &format!("{}-level-k{}-{}", scheme_name(scheme), k, nm), || budget(&s, &c).to_string());
+                }
+            }
+        }
         let mut steps = 0; let mut tries = 0;
         while steps < 12 && tries < 80 {
             tries += 1;
